@@ -37,7 +37,8 @@ import (
 
 func init() { subcmds["c15"] = c15Main }
 
-const c15SupplyAddr = "oneledgerSupplyAddress"
+const c15SupplyAddr = "oneledgerSupplyAddress" // 22 bytes, as in cmd/olfullnode and DOCKER/kainos-test/genesis.json
+const c15SupplyAddr20 = "oneledgerSupplyAddr_" // 20 bytes
 const c15SupplyID = 99
 
 var c15Contract = ethcommon.HexToAddress("0x00000000000000000000000000000000000c0de1")
@@ -98,6 +99,8 @@ type c15Case struct {
 	Wits  []int
 	Cap   string
 	Txs   []c15Tx
+	Keys  []int // accounts that are the address of a signing key
+	Len20 []int // accounts whose address is 20 bytes long
 	Bal0  []c15Bal
 	Ops   []c15Op
 	Obs   []c15Obs
@@ -113,6 +116,7 @@ type c15Cfg struct {
 	Blocks      int
 	Init        int64 // initial wrapped balance of user 1 and 2 (and matching supply counter)
 	ERC         bool  // register one ERC-20 token (currency TTC) in the chain driver options
+	Supply20    bool  // TotalSupplyAddr is a 20-character string (a well-formed address for SEND's Validate)
 }
 
 // ---------- the world of one run ----------
@@ -133,6 +137,7 @@ type c15World struct {
 	txByHex      map[string]int
 	bjob         map[int]bool
 	flag         bool
+	supply       string
 	skippedPanic int
 	c            c15Case
 }
@@ -188,7 +193,14 @@ func c15NewWorld(cfg c15Cfg) *c15World {
 		w.regAddr(50, w.val.Val.Addr)
 		w.idKey[50] = w.val.Val
 	}
-	w.regAddr(c15SupplyID, keys.Address(c15SupplyAddr))
+	w.supply = c15SupplyAddr
+	if cfg.Supply20 {
+		w.supply = c15SupplyAddr20
+		if len(w.supply) != 20 {
+			panic("c15: supply address constant is not 20 bytes")
+		}
+	}
+	w.regAddr(c15SupplyID, keys.Address(w.supply))
 
 	spec := &GenesisSpec{Vals: []ValSpec{w.val}}
 	spec.Funded = append(spec.Funded, w.val.Stake.Addr)
@@ -205,7 +217,7 @@ func c15NewWorld(cfg c15Cfg) *c15World {
 		st.Governance.ETHCDOption = ethchain.ChainDriverOption{
 			ContractABI: contract.LockRedeemABI, ContractAddress: c15Contract,
 			ERCContractABI: contract.LockRedeemERCABI, ERCContractAddress: c15Contract,
-			TotalSupply: fmt.Sprint(cfg.Cap), TotalSupplyAddr: c15SupplyAddr, BlockConfirmation: 1,
+			TotalSupply: fmt.Sprint(cfg.Cap), TotalSupplyAddr: w.supply, BlockConfirmation: 1,
 		}
 		if cfg.ERC {
 			st.Currencies = append(st.Currencies, balance.Currency{Id: 4, Name: "TTC", Chain: chain.ETHEREUM, Decimal: 18, Unit: "ttc"})
@@ -221,7 +233,7 @@ func c15NewWorld(cfg c15Cfg) *c15World {
 			a := *balance.NewAmount(cfg.Init)
 			st.Balances = append(st.Balances, consensus.BalanceState{Address: w.users[0].Addr, Currency: "ETH", Amount: a},
 				consensus.BalanceState{Address: w.users[1].Addr, Currency: "ETH", Amount: a},
-				consensus.BalanceState{Address: keys.Address(c15SupplyAddr), Currency: "ETH", Amount: *balance.NewAmount(2 * cfg.Init)})
+				consensus.BalanceState{Address: keys.Address(w.supply), Currency: "ETH", Amount: *balance.NewAmount(2 * cfg.Init)})
 		}
 	}
 	w.rep = NewReplica(spec, ReplicaOpts{NodeVal: w.val.Val})
@@ -232,6 +244,16 @@ func c15NewWorld(cfg c15Cfg) *c15World {
 	for i := range w.wkeys {
 		w.c.Wits = append(w.c.Wits, 20+i)
 	}
+	for id, a := range w.idAddr {
+		if _, ok := w.idKey[id]; ok {
+			w.c.Keys = append(w.c.Keys, id)
+		}
+		if a.Err() == nil {
+			w.c.Len20 = append(w.c.Len20, id)
+		}
+	}
+	sort.Ints(w.c.Keys)
+	sort.Ints(w.c.Len20)
 	if cfg.Init > 0 {
 		w.c.Bal0 = []c15Bal{{1, fmt.Sprint(cfg.Init)}, {2, fmt.Sprint(cfg.Init)}, {c15SupplyID, fmt.Sprint(2 * cfg.Init)}}
 	}
@@ -426,9 +448,18 @@ func (w *c15World) deliver(op c15Op, descr string, tx []byte) {
 	w.c.Obs = append(w.c.Obs, w.observe(res.Code == 0))
 }
 
+// the key that signs a transaction naming account id as its signer; an account without a key (the
+// supply address) can only be named by a transaction signed with somebody else's key
+func (w *c15World) signer(id int) (Key, keys.Address) {
+	if k, ok := w.idKey[id]; ok {
+		return k, k.Addr
+	}
+	return w.users[0], w.idAddr[id]
+}
+
 func (w *c15World) doLock(sender, txid int) {
-	k := w.idKey[sender]
-	tx := mkTx(action.ETH_LOCK, acteth.Lock{Locker: k.Addr, ETHTxn: w.txs[txid-1].Bytes}, GAS, fmt.Sprint(len(w.c.Ops)), k)
+	k, addr := w.signer(sender)
+	tx := mkTx(action.ETH_LOCK, acteth.Lock{Locker: addr, ETHTxn: w.txs[txid-1].Bytes}, GAS, fmt.Sprint(len(w.c.Ops)), k)
 	w.deliver(c15Op{Kind: "lock", Sender: sender, Tx: txid}, fmt.Sprintf("lock by %d tx %d", sender, txid), tx)
 }
 
@@ -437,8 +468,8 @@ func (w *c15World) doRedeem(sender, txid int) {
 		w.skippedPanic++
 		return
 	}
-	k := w.idKey[sender]
-	tx := mkTx(action.ETH_REDEEM, acteth.Redeem{Owner: k.Addr, To: ethcommon.BytesToAddress(k.Addr), ETHTxn: w.txs[txid-1].Bytes}, GAS, fmt.Sprint(len(w.c.Ops)), k)
+	k, addr := w.signer(sender)
+	tx := mkTx(action.ETH_REDEEM, acteth.Redeem{Owner: addr, To: ethcommon.BytesToAddress(k.Addr), ETHTxn: w.txs[txid-1].Bytes}, GAS, fmt.Sprint(len(w.c.Ops)), k)
 	w.deliver(c15Op{Kind: "redeem", Sender: sender, Tx: txid}, fmt.Sprintf("redeem by %d tx %d", sender, txid), tx)
 }
 
@@ -454,9 +485,9 @@ func (w *c15World) doReport(name, locker, validator int, index int64, success bo
 }
 
 func (w *c15World) doTransfer(from, to int, amt int64) {
-	k := w.idKey[from]
+	k, addr := w.signer(from)
 	a := action.Amount{Currency: "ETH", Value: *balance.NewAmount(amt)}
-	tx := mkTx(action.SEND, transfer.Send{From: k.Addr, To: w.idAddr[to], Amount: a}, GAS, fmt.Sprint(len(w.c.Ops)), k)
+	tx := mkTx(action.SEND, transfer.Send{From: addr, To: w.idAddr[to], Amount: a}, GAS, fmt.Sprint(len(w.c.Ops)), k)
 	w.deliver(c15Op{Kind: "transfer", From: from, To: to, Amt: fmt.Sprint(amt)}, fmt.Sprintf("send %d from %d to %d", amt, from, to), tx)
 }
 
@@ -591,11 +622,17 @@ func (w *c15World) run(r *rand.Rand) {
 			switch x := r.Intn(100); {
 			case x < 14: // new lock
 				s := 1 + r.Intn(len(w.users))
+				if r.Intn(25) == 0 {
+					s = c15SupplyID // names the supply address as Locker: cannot be signed by it
+				}
 				t := newLockTx()
 				w.doLock(s, t)
 				live = append(live, c15Live{w.txs[t-1].Name, t, s, false})
 			case x < 24: // new redeem
 				s := 1 + r.Intn(len(w.users))
+				if r.Intn(25) == 0 {
+					s = c15SupplyID
+				}
 				t := newRedeemTx()
 				w.doRedeem(s, t)
 				live = append(live, c15Live{w.txs[t-1].Name, t, s, true})
@@ -622,6 +659,9 @@ func (w *c15World) run(r *rand.Rand) {
 				}
 			case x < 41: // wrapped-token transfer
 				f := 1 + r.Intn(len(w.users))
+				if r.Intn(20) == 0 {
+					f = c15SupplyID
+				}
 				to := anyAcct()
 				if r.Intn(4) != 0 && to == c15SupplyID {
 					to = 1 + r.Intn(len(w.users))
@@ -645,6 +685,9 @@ func (w *c15World) run(r *rand.Rand) {
 					}
 				}
 				v, idx := reporter()
+				if r.Intn(25) == 0 {
+					idx = -1 - int64(r.Intn(3)) // refused by Validate since DeliverTx validates (panicked in AddVote before)
+				}
 				locker := l.owner
 				if r.Intn(5) == 0 {
 					locker = anyAcct()
@@ -809,8 +852,8 @@ func c15CoqCase(c c15Case) string {
 		obs[i] = c15CoqObs(prev, c.Obs[i])
 		prev = c.Obs[i]
 	}
-	return fmt.Sprintf("{| c_wits := %s; c_cap := %s; c_supply := %s;\n   c_txs := [%s];\n   c_bal0 := %s;\n   c_ops := [%s];\n   c_obs := [%s] |}",
-		c15Ns(c.Wits), c15Z(c.Cap), c15N(c15SupplyID), strings.Join(txs, ";\n     "), c15CoqBals(c.Bal0),
+	return fmt.Sprintf("{| c_wits := %s; c_cap := %s; c_supply := %s;\n   c_txs := [%s];\n   c_keys := %s; c_len20 := %s;\n   c_bal0 := %s;\n   c_ops := [%s];\n   c_obs := [%s] |}",
+		c15Ns(c.Wits), c15Z(c.Cap), c15N(c15SupplyID), strings.Join(txs, ";\n     "), c15Ns(c.Keys), c15Ns(c.Len20), c15CoqBals(c.Bal0),
 		strings.Join(ops, ";\n     "), strings.Join(obs, ";\n    "))
 }
 
@@ -962,7 +1005,7 @@ func c15Main(args []string) int {
 	for i := 0; i < *n; i++ {
 		nw := []int{1, 2, 3, 4, 4, 5, 6, 7, 3, 0}[(i+*shardID*3)%10]
 		cfg := c15Cfg{NWit: nw, NodeWitness: nw > 0 && r.Intn(2) == 0, FlagFrom: []int{-1, 0, 3 + r.Intn(6)}[r.Intn(3)],
-			Cap: []int64{300, 5000, 1000000}[r.Intn(3)], Seed: r.Int63n(1 << 40), Blocks: *blocks, Init: []int64{0, 50, 500}[r.Intn(3)]}
+			Cap: []int64{300, 5000, 1000000}[r.Intn(3)], Seed: r.Int63n(1 << 40), Blocks: *blocks, Init: []int64{0, 50, 500}[r.Intn(3)], Supply20: r.Intn(4) == 0}
 		cases = append(cases, c15RunCfg(cfg))
 	}
 
@@ -1060,7 +1103,7 @@ type c15Crash struct {
 
 // deliver tx on a fresh world after the setup txs; report what the application did
 func c15TryCrash(setup func(w *c15World) [][]byte, mk func(w *c15World) ([]byte, string)) (setupHex []string, txHex, payload, observed string) {
-	w := c15NewWorld(c15Cfg{NWit: 4, Cap: 1000000, Seed: 1, FlagFrom: -1})
+	w := c15NewWorld(c15Cfg{NWit: 4, Cap: 1000000, Seed: 1, FlagFrom: -1, ERC: true})
 	defer func() {
 		defer func() { recover() }()
 		w.rep.Close()
@@ -1123,6 +1166,48 @@ func c15CrashInputs(path string) int {
 			m := &acteth.ReportFinality{TrackerName: tn, Locker: w.idAddr[1], ValidatorAddress: k.Addr, VoteIndex: -1, Success: true}
 			pl, _ := m.Marshal()
 			return mkTx(action.ETH_REPORT_FINALITY_MINT, m, GAS, "c18", k), string(pl)
+		})
+		out = append(out, c)
+	}
+	{
+		c := c15Crash{ID: "C15.erc20_lock_bytes_without_selector", TxType: "ERC20_LOCK (0x94)", Genesis: gen + "; TokenList = [TTC at 0x..070c31 with ERC20BasicABI]",
+			Site: "chains/ethereum/helpers.go parseERC20Lock: ss := strings.Split(hex(data), selector); ss[1][64:128] without any length check (called from VerfiyERC20Lock in runERC20Lock)",
+			Note: "an ERC20_LOCK whose ETHTxn is a transaction to a registered token address whose bytes do not contain the transfer(address,uint256) selector"}
+		c.SetupHex, c.TxHex, c.Payload, c.Observed = c15TryCrash(func(w *c15World) [][]byte { return nil }, func(w *c15World) ([]byte, string) {
+			k := w.idKey[1]
+			m := acteth.ERC20Lock{Locker: k.Addr, ETHTxn: c15LockBytes(big.NewInt(0), c15Token, []byte{1, 2, 3, 4}, 1, c15S(1))}
+			pl, _ := m.Marshal()
+			return mkTx(action.ERC20_LOCK, m, GAS, "c18", k), string(pl)
+		})
+		out = append(out, c)
+	}
+	{
+		c := c15Crash{ID: "C15.erc20_redeem_bytes_without_selector", TxType: "ERC20_REDEEM (0x95)", Genesis: gen + "; ERCContractABI = LockRedeemERCABI",
+			Site: "chains/ethereum/helpers.go parseERC20Redeem: ss[1][88:128] without any length check (called from ParseERC20RedeemParams in runERC20Reddem)",
+			Note: "an ERC20_REDEEM whose ETHTxn bytes do not contain the redeem(uint256,address) selector"}
+		c.SetupHex, c.TxHex, c.Payload, c.Observed = c15TryCrash(func(w *c15World) [][]byte { return nil }, func(w *c15World) ([]byte, string) {
+			k := w.idKey[1]
+			m := acteth.ERC20Redeem{Owner: k.Addr, To: ethcommon.BytesToAddress(k.Addr), ETHTxn: []byte{0xc0, 1, 2, 3}}
+			pl, _ := m.Marshal()
+			return mkTx(action.ERC20_REDEEM, m, GAS, "c18", k), string(pl)
+		})
+		out = append(out, c)
+	}
+	{
+		c := c15Crash{ID: "C15.erc20_lock_wrong_receiver_nil_error", TxType: "ERC20_LOCK (0x94)", Genesis: gen + "; TokenList = [TTC at 0x..070c31 with ERC20BasicABI]",
+			Site: "action/eth/ext_ERC20Lock.go runERC20Lock: `if !ok { ... Log: \"...\" + err.Error() }` with err == nil when VerfiyERC20Lock returns (false, nil)",
+			Note: "an ERC20_LOCK whose token transfer goes to an address other than ERCContractAddress: the refusal path calls Error() on a nil error"}
+		c.SetupHex, c.TxHex, c.Payload, c.Observed = c15TryCrash(func(w *c15World) [][]byte { return nil }, func(w *c15World) ([]byte, string) {
+			k := w.idKey[1]
+			data := ethcommon.FromHex("a9059cbb")
+			recv := make([]byte, 32)
+			recv[31] = 0x77
+			amt := make([]byte, 32)
+			amt[31] = 5
+			data = append(append(data, recv...), amt...)
+			m := acteth.ERC20Lock{Locker: k.Addr, ETHTxn: c15LockBytes(big.NewInt(0), c15Token, data, 1, c15S(1))}
+			pl, _ := m.Marshal()
+			return mkTx(action.ERC20_LOCK, m, GAS, "c18", k), string(pl)
 		})
 		out = append(out, c)
 	}
